@@ -13,6 +13,13 @@ use serde::{Deserialize, Serialize};
 use serde_json::{json, Value};
 
 pub const USERS: [&str; 2] = ["u1", "u2"];
+const GAS_TOP: i64 = 1_000_000; // model value that stands for u64::MAX
+fn gas_up(g: i64) -> Option<u64> {
+    if g < 0 { None } else if g == GAS_TOP { Some(u64::MAX) } else { Some(g as u64) }
+}
+fn gas_down(g: Option<u64>) -> i64 {
+    match g { None => -1, Some(u64::MAX) => GAS_TOP, Some(x) => x as i64 }
+}
 const NAT: &str = "unat";
 const OUR_PORT: &str = "wasm.ics20";
 const REMOTE_PORT: &str = "transfer";
@@ -181,8 +188,8 @@ impl Run {
         let tok = w.app.instantiate_contract(tok_id, creator.clone(), &tmsg, &[], "tok", None).unwrap();
         w.register("tok", &tok);
         let dg = cfg.get("defaultGas").and_then(|x| x.as_i64()).unwrap_or(-1);
-        let allowlist: Vec<AllowMsg> = cfg["allow"].as_array().map(|a| a.iter().map(|e| AllowMsg { contract: tok.to_string(), gas_limit: if e["gas"].as_i64().unwrap_or(-1) < 0 { None } else { e["gas"].as_u64() } }).collect()).unwrap_or_default();
-        let init = InitMsg { default_timeout: 100, gov_contract: gov.to_string(), allowlist, default_gas_limit: if dg < 0 { None } else { Some(dg as u64) } };
+        let allowlist: Vec<AllowMsg> = cfg["allow"].as_array().map(|a| a.iter().map(|e| AllowMsg { contract: tok.to_string(), gas_limit: gas_up(e["gas"].as_i64().unwrap_or(-1)) }).collect()).unwrap_or_default();
+        let init = InitMsg { default_timeout: 100, gov_contract: gov.to_string(), allowlist, default_gas_limit: gas_up(dg) };
         let ics = w.app.instantiate_contract(code_id, creator.clone(), &init, &[], "ics20", Some(creator.to_string())).unwrap();
         w.register("ics", &ics);
         let channels: Vec<String> = cfg["channels"].as_array().unwrap().iter().map(|c| c.as_str().unwrap().to_string()).collect();
@@ -226,6 +233,12 @@ impl Run {
         cfgv["pktMax"] = json!(if log2 >= 35 { ((u64::MAX as u128) / run.sc.u) as i64 } else { -1 });
         let obs = run.observe(legacy != "none");
         let anom = run.sc.take_anomalies();
+        // packets of the pre-history are still in flight
+        let prepkts: Vec<Value> = run.pkts.iter().map(|p| {
+            let d: cw20_ics20::ibc::Ics20Packet = from_json(&p.packet.data).unwrap();
+            json!({"ch": p.packet.src.channel_id, "denom": run.denom_model(&d.denom), "amt": run.sc.down(d.amount.u128(), "packet amount"), "sender": run.w.name_of(&d.sender), "done": p.done})
+        }).collect();
+        cfgv["prepkts"] = json!(prepkts);
         out.emit(&json!({"act":"reset","sys":"ics20","run":run_no,"cfg":cfgv,"ok":true,"panic":false,"err":"","now":run.w.now(),
             "out":[],"ack":"none","anom":anom,"obs":obs}));
         Some(run)
@@ -272,7 +285,7 @@ impl Run {
         } else {
             let c: ConfigResponse = w.smart(&self.ics, &QueryMsg::Config {}).unwrap();
             let a: AllowedResponse = w.smart(&self.ics, &QueryMsg::Allowed { contract: self.tok.to_string() }).unwrap();
-            (c.default_gas_limit.map(|x| x as i64).unwrap_or(-1), w.name_of(&c.gov_contract), a.is_allowed, a.gas_limit.map(|x| x as i64).unwrap_or(-1))
+            (gas_down(c.default_gas_limit), w.name_of(&c.gov_contract), a.is_allowed, gas_down(a.gas_limit))
         };
         let inflight: Vec<Value> = self.pkts.iter().enumerate().filter(|(_, p)| !p.done).map(|(i, _)| json!(i + 1)).collect();
         json!({"chan": Value::Object(chans), "held": held, "ubal": Value::Object(ubal), "defaultGas": dgas, "admin": admin,
@@ -388,7 +401,7 @@ impl Run {
             "allow" => {
                 let sender = self.w.addr(&by);
                 let g = args["gas"].as_i64().unwrap_or(-1);
-                let m = ExecuteMsg::Allow(AllowMsg { contract: self.tok.to_string(), gas_limit: if g < 0 { None } else { Some(g as u64) } });
+                let m = ExecuteMsg::Allow(AllowMsg { contract: self.tok.to_string(), gas_limit: gas_up(g) });
                 call(&mut self.w, |w| w.app.execute_contract(sender, ics.clone(), &m, &[]))
             }
             "update_admin" => {
@@ -400,7 +413,7 @@ impl Run {
                 let creator = self.w.addr("creator");
                 let g = args["gas"].as_i64().unwrap_or(-1);
                 let code = self.code_id;
-                let m = MigrateMsg { default_gas_limit: if g < 0 { None } else { Some(g as u64) } };
+                let m = MigrateMsg { default_gas_limit: gas_up(g) };
                 call(&mut self.w, |w| w.app.migrate_contract(creator, ics.clone(), &m, code))
             }
             other => panic!("ics20: unknown action {other}"),
@@ -449,7 +462,7 @@ impl Run {
 
     /// decode a SubMsg emitted by the ics20 contract into a record [k, ch, denom, amt, a, b, memo, timeout, gas]
     fn decode(&self, m: &Value) -> Value {
-        let gas = m["gas_limit"].as_i64().unwrap_or(-1);
+        let gas = gas_down(m["gas_limit"].as_u64());
         let msg = &m["msg"];
         let rec = |k: &str, ch: String, denom: String, amt: i64, a: String, b: String, memo: String, timeout: i64| json!({"k":k,"ch":ch,"denom":denom,"amt":amt,"a":a,"b":b,"memo":memo,"timeout":timeout,"gas":gas});
         if let Some(sp) = msg["ibc"].get("send_packet") {
@@ -538,7 +551,7 @@ pub fn random_run(rng: &mut Rng, run_no: u64, len: usize, out: &mut Out) {
                 }
             }
             73..=80 => json!({"act":"tokfail","by":"env","args":{"on":rng.chance(1,2)}}),
-            81..=88 => json!({"act":"allow","by":rng.pick(&["gov","gov","gov2","u1"]),"args":{"gas":*rng.pick(&[-1i64,100,200,800,1000])}}),
+            81..=88 => json!({"act":"allow","by":rng.pick(&["gov","gov","gov2","u1"]),"args":{"gas":*rng.pick(&[-1i64,100,200,800,1000,GAS_TOP])}}),
             89..=92 => json!({"act":"update_admin","by":rng.pick(&["gov","gov2","u1"]),"args":{"new":rng.pick(&["gov","gov2"])}}),
             93..=95 => json!({"act":"migrate","by":"creator","args":{"gas":*rng.pick(&[-1i64,300,50])}}),
             _ => json!({"act":"advance","by":"env","args":{"dh":1,"dt":rng.range(1,20)}}),
